@@ -13,11 +13,12 @@ ev = open(os.path.join(out, f"eval{i}.txt")).read()
 m = re.search(r"pristine-demo=(\w+) suite=(\w+) patched-demo=(\w+)", ev)
 if not m or m.groups() != ("pass", "pass", "fail"):
     sys.exit(f"{sid}: not confirmed ({m.groups() if m else 'no verify line'})")
-caught, detail = [], {}
+caught, detail, ran = [], {}, []
 for line in ev.splitlines():
     mm = re.match(r"(C\d+) exit=(\d+) ?(.*)", line)
     if mm:
         cid, code, rest = mm.group(1), int(mm.group(2)), mm.group(3)
+        ran.append(cid)
         if code == 1:
             caught.append(cid)
             cls = re.search(r"class=(.*?) sig=", rest)
@@ -42,6 +43,7 @@ meta = {
     },
     "checks_run": "tools/mutcheck.sh: the simulator rebuilt against a scratch worktree with the patch applied, every registered check at the quick tier",
     "checks_at_commit": __import__("subprocess").run(["git", "-C", "/verif", "rev-parse", "--short", "HEAD"], capture_output=True, text=True).stdout.strip(),
+    "checks_evaluated": ran,
     "caught_by": caught,
     "violation_classes": detail,
 }
